@@ -132,6 +132,20 @@ def main(argv):
             return 0
         import re
         build_secs = 0.0
+        # E2 (MIR -> SMT) obligations run in a thread alongside the Kani/CBMC suites (single-threaded python + z3)
+        e2thread, e2box = None, {}
+        if hasattr(mod, "e2") and not a.only:
+            import threading
+
+            def _e2():
+                try:
+                    e2box["res"] = mod.e2(a.tier, seed, scratch, os.path.join(logdir, "e2"))
+                except Exception as e:  # encoder failure is never a violation
+                    import traceback
+                    traceback.print_exc()
+                    e2box["res"] = [{"name": "e2", "status": "error", "error": repr(e)}]
+            e2thread = threading.Thread(target=_e2)
+            e2thread.start()
         if a.only and not any(re.search(a.only, h.name) for s in suites for h in s.harnesses):
             print("INCONCLUSIVE --only %r matches no harness of %s (%s tier)" % (a.only, prop, a.tier))
             return 2
@@ -179,13 +193,9 @@ def main(argv):
                         else:
                             out.violations.append(finding)
         # E2 (MIR -> SMT) obligations, if the property has any
-        if hasattr(mod, "e2") and not a.only:
-            try:
-                e2res = mod.e2(a.tier, seed, scratch, os.path.join(logdir, "e2"))
-            except Exception as e:  # encoder failure is never a violation
-                import traceback
-                traceback.print_exc()
-                e2res = [{"name": "e2", "status": "error", "error": repr(e)}]
+        if e2thread is not None:
+            e2thread.join()
+            e2res = e2box.get("res") or [{"name": "e2", "status": "error", "error": "E2 thread produced no result"}]
             for o in e2res:
                 out.e2.append(o)
                 if o["status"] == "unsat":
